@@ -49,6 +49,7 @@ func schedules(c *engine.Ctx) {
 						d, aux = docs[dn](), docs["sparse"]()
 						return []func(){func() { ops[sel[a]].Run(d, aux) }, func() { ops[sel[b]].Run(d, aux) }}
 					}, func(x *sched.Exec) bool {
+						t.Alive()
 						t.Transitions(len(x.Points))
 						if rs := sched.NewRaceReports(); len(rs) > 0 {
 							viol = engine.Violate("data-race", opFamily(ops[sel[a]].Name)+"||"+opFamily(ops[sel[b]].Name), "%s || %s on shared document %s (thread order %v)\n%s", ops[sel[a]].Name, ops[sel[b]].Name, dn, x.Choices, rs[0].Text)
